@@ -378,9 +378,10 @@ func (s *ServerBase) acceptMsg(m *dns.Msg) (action dns.MsgAcceptAction) {
 		return dns.MsgReject
 	}
 
-	// There must be no more than one OPT record.  See RFC 6891, section 6.1.1.
-	if hasMultipleOPT(m) {
-		log.Debug("[%d]: message rejected due to wrong number of OPT records", m.Id)
+	// There must be no more than one OPT record, and it must be in the
+	// additional section.  See RFC 6891, section 6.1.1.
+	if hasMultipleOPT(m) || hasMisplacedOPT(m) {
+		log.Debug("[%d]: message rejected due to wrong number or place of OPT records", m.Id)
 
 		return dns.MsgReject
 	}
@@ -399,6 +400,24 @@ func hasMultipleOPT(m *dns.Msg) (ok bool) {
 	}
 
 	return n > 1
+}
+
+// hasMisplacedOPT returns true if m has an OPT record in its answer or
+// authority sections.
+func hasMisplacedOPT(m *dns.Msg) (ok bool) {
+	for _, rr := range m.Answer {
+		if rr.Header().Rrtype == dns.TypeOPT {
+			return true
+		}
+	}
+
+	for _, rr := range m.Ns {
+		if rr.Header().Rrtype == dns.TypeOPT {
+			return true
+		}
+	}
+
+	return false
 }
 
 // handlePanicAndExit writes panic info to log, reports it to the registered
